@@ -186,6 +186,35 @@ class Runner:
             pass
         elif fn.kind == "class":
             args = [Obj("cls:" + fn.cls)] + list(args)
+        # the module-level names the function can see: stand-ins given by the rule, repository classes, third-party modules
+        # and the module's own constants (literals, exception classes, and expressions over those, in source order)
+        genv = dict(EXTRA_GLOBALS)
+        for cname in self.ctx.model.classes:
+            genv.setdefault(cname, ClassValue(self, cname))
+        for mod in ("np", "math", "pynurbs", "fractions"):
+            genv.setdefault(mod, ExtFn(self, mod))
+        modast = self.ctx.model.modules.get(fn.mod)
+        for st in (modast.body if modast is not None else []):
+            if isinstance(st, (ast.Assign, ast.AnnAssign)) and getattr(st, "value", None) is not None:
+                tg = st.targets[0] if isinstance(st, ast.Assign) else st.target
+                if isinstance(tg, ast.Name) and tg.id not in genv:
+                    try:
+                        genv[tg.id] = ast.literal_eval(st.value)       # module-level literal constants
+                        continue
+                    except (ValueError, TypeError, SyntaxError, MemoryError, RecursionError):
+                        pass
+                    import builtins
+                    names_ = st.value.elts if isinstance(st.value, ast.Tuple) else [st.value]
+                    excs = [getattr(builtins, n.id, None) for n in names_ if isinstance(n, ast.Name)]
+                    if len(excs) == len(names_) and excs and all(isinstance(x, type) and issubclass(x, BaseException)
+                                                                  for x in excs):
+                        genv[tg.id] = tuple(excs) if isinstance(st.value, ast.Tuple) else excs[0]   # exception classes
+                        continue
+                    if not any(isinstance(x, (ast.Call, ast.Lambda, ast.Await, ast.Yield)) for x in ast.walk(st.value)):
+                        try:                                            # `10 ** 9`, `{2: Path.CURVE3}`, `(int, Fraction)` ...
+                            genv[tg.id] = Ev(dict(genv), attr_hook=self._attr).ev(st.value)
+                        except Exception:      # noqa: BLE001 -- not a constant the interpreter can see
+                            pass
         env = {}
         defaults = list(a.defaults)
         for i, n in enumerate(names):
@@ -197,7 +226,7 @@ class Runner:
                 di = i - (len(names) - len(defaults))
                 if di < 0:
                     raise Undecided(f"missing argument {n} of {fn.qname}")
-                env[n] = Ev({}).ev(defaults[di])
+                env[n] = Ev(dict(genv)).ev(defaults[di])
         if a.vararg is not None:
             env[a.vararg.arg] = tuple(args[len(names):])
         elif len(args) > len(names):
@@ -206,28 +235,8 @@ class Runner:
             known = set(names) | {p.arg for p in a.kwonlyargs}
             env[a.kwarg.arg] = {k: v for k, v in kwargs.items() if k not in known}
         for p, d in zip(a.kwonlyargs, a.kw_defaults):
-            env[p.arg] = kwargs[p.arg] if p.arg in kwargs else (Ev({}).ev(d) if d is not None else None)
-        for k, v in EXTRA_GLOBALS.items():
-            env.setdefault(k, v)
-        for cname in self.ctx.model.classes:
-            env.setdefault(cname, ClassValue(self, cname))
-        modast = self.ctx.model.modules.get(fn.mod)
-        for st in (modast.body if modast is not None else []):
-            if isinstance(st, (ast.Assign, ast.AnnAssign)) and getattr(st, "value", None) is not None:
-                tg = st.targets[0] if isinstance(st, ast.Assign) else st.target
-                if isinstance(tg, ast.Name) and tg.id not in env:
-                    try:
-                        env[tg.id] = ast.literal_eval(st.value)       # module-level literal constants only
-                    except (ValueError, TypeError, SyntaxError, MemoryError, RecursionError):
-                        import builtins
-                        names = st.value.elts if isinstance(st.value, ast.Tuple) else [st.value]
-                        excs = [getattr(builtins, n.id, None) for n in names if isinstance(n, ast.Name)]
-                        if len(excs) == len(names) and excs and all(isinstance(x, type) and issubclass(x, BaseException)
-                                                                     for x in excs):
-                            env[tg.id] = tuple(excs) if isinstance(st.value, ast.Tuple) else excs[0]   # exception classes
-        for mod in ("np", "math", "pynurbs", "fractions"):
-            env.setdefault(mod, ExtFn(self, mod))
-        for k, v in EXTRA_GLOBALS.items():
+            env[p.arg] = kwargs[p.arg] if p.arg in kwargs else (Ev(dict(genv)).ev(d) if d is not None else None)
+        for k, v in genv.items():
             env.setdefault(k, v)
         ev = Ev(env, hook=lambda e, c, a, k: self._hook(fn, e, c, a, k), attr_hook=self._attr, asserts=self.asserts,
                 store_hook=self._store)
